@@ -145,7 +145,60 @@ def rule_split(ctx, loops):
     ctx.covered('R02.5', 'hybrid force splittings: L and 1-L weights (MERCURIUS), K and !K masks (TRACE), equal strength, equal pair domains', n, floor=4, samples=samples)
 
 
+def rule_pair_domains(ctx):
+    """R02.8: the pairs visited by the loops of a gravity routine are exactly the specified set."""
+    from . import pairdomain as D
+    tu = cfront.load_tu('gravity.c')
+    groups = [('reb_calculate_acceleration', ('REB_GRAVITY_BASIC',), False, True), ('reb_calculate_acceleration', ('REB_GRAVITY_COMPENSATED',), False, True),
+              ('reb_calculate_acceleration', ('REB_GRAVITY_MERCURIUS', 'case 0'), True, False), ('reb_calculate_acceleration', ('REB_GRAVITY_TRACE', 'REB_TRACE_MODE_INTERACTION'), True, False)]
+    n = 0
+    samples = []
+    for fname, cases, no0, uses_ignore in groups:
+        fn = tu.func(fname)
+        lets = D.fn_lets(fn)
+        pls = [pl for pl in P.find_pair_loops(tu, fn) if tuple(pl.cases) == cases]
+        anchor(len(pls) >= 2, 'active-active and test-particle pair loops of %s %s' % (fname, '/'.join(cases)))
+        configs = 0
+        bad = None
+        for nraw in (-1, 1, 2, 3):
+            for ntest in (0, 1, 2, 3):
+                nact = (2 + ntest) if nraw == -1 else nraw
+                nreal = nact if nraw == -1 else nact + ntest
+                for tt in (0, 1):
+                    for ig in ((0, 1, 2) if uses_ignore else (0,)):
+                        env = {'r.N': nreal, 'r.N_var': 0, 'r.N_active': nraw, 'r.gravity_ignore_terms': ig, 'r.testparticle_type': tt}
+                        seen = []
+                        try:
+                            for pl in pls:
+                                e2 = dict(env)
+                                if any('current_Ks' in g for g in pl.guards):
+                                    pass
+                                seen += D.visited(pl, e2, lets)
+                        except D.Unknown as ex:
+                            raise AnalysisError('R02.8: cannot evaluate the iteration space of %s %s: %s' % (fname, '/'.join(cases), ex))
+                        configs += 1
+                        got = [frozenset(p_) for p_ in seen]
+                        want = D.spec(nact, nreal, ig, no0)
+                        if (set(got) != want or len(got) != len(set(got))) and bad is None:
+                            missing = sorted(tuple(sorted(x)) for x in want - set(got))
+                            extra = sorted(tuple(sorted(x)) for x in set(got) - want if len(x) == 2)
+                            selfp = [tuple(p_) for p_ in seen if p_[0] == p_[1]]
+                            dup = len(got) - len(set(got))
+                            bad = (nraw, nreal, tt, ig, missing, extra, selfp, dup)
+        n += configs
+        where = 'src/gravity.c:%s %s %s' % (pls[0].line, fname, '/'.join(cases))
+        if bad:
+            nraw, nreal, tt, ig, missing, extra, selfp, dup = bad
+            ctx.report('R02.8', '%s:%s:domain' % (fname, '/'.join(cases)), where,
+                       'with N_active=%d, %d real particles, testparticle_type=%d, gravity_ignore_terms=%d the loops visit the wrong pair set: missing %s, unexpected %s, self-pairs %s, visited twice: %d'
+                       % (nraw, nreal, tt, ig, missing[:4], extra[:4], selfp[:2], dup))
+        else:
+            samples.append('%s: %d count/option orderings, pair set == specification' % (where, configs))
+    ctx.covered('R02.8', 'iteration spaces of the direct, compensated and hybrid-interaction pair loops equal the specified pair set for every ordering of the counts and every gravity_ignore_terms', n, floor=150, samples=samples)
+
+
 def run(ctx):
+    rule_pair_domains(ctx)
     rule_dispatch(ctx)
     rule_components(ctx)
     loops = rule_pairs(ctx)
